@@ -106,6 +106,16 @@ theorem serF_track_noNull (c : Codecs) : ∀ (n : Nat) (heap : Heap) (decls : De
       split at h
       · cases h
       · cases h; exact PV.removeNone_noNull _
+    | time b =>
+      simp only [serF] at h
+      split at h
+      · cases h
+      · cases h; exact PV.removeNone_noNull _
+    | uuid b =>
+      simp only [serF] at h
+      split at h
+      · cases h
+      · cases h; exact PV.removeNone_noNull _
     | «opaque» k b =>
       simp only [serF] at h
       split at h
